@@ -65,6 +65,8 @@ type vRes struct {
 	Alloc uint64     `json:"alloc,omitempty"`
 	Ns    int64      `json:"ns,omitempty"`
 	ExpOK bool       `json:"exp_unchanged"`
+	MaxF  int        `json:"maxf"`
+	NRec  int        `json:"nrec"`
 }
 
 type vJobRes struct {
@@ -186,6 +188,15 @@ func vRunMsg(cache MemCache, m vMsg, wantJSON, measure bool) (res vRes) {
 	}()
 	var ms0, ms1 runtime.MemStats
 	if measure {
+		for _, sh := range cache {
+			if sh != nil {
+				for _, t := range sh.Templates {
+					if n := len(t.Template.FieldSpecifiers) + len(t.Template.ScopeFieldSpecifiers); n > res.MaxF {
+						res.MaxF = n
+					}
+				}
+			}
+		}
 		runtime.ReadMemStats(&ms0)
 	}
 	t0 := time.Now()
@@ -209,6 +220,7 @@ func vRunMsg(cache MemCache, m vMsg, wantJSON, measure bool) (res vRes) {
 		res.St = "ok"
 	}
 	res.Agent = msg.AgentID
+	res.NRec = len(msg.DataSets)
 	res.Hdr = &vHdr{int(msg.Header.Version), int(msg.Header.Length), vBE(uint64(msg.Header.ExportTime), 4),
 		vBE(uint64(msg.Header.SequenceNo), 4), vBE(uint64(msg.Header.DomainID), 4)}
 	for _, ds := range msg.DataSets {
@@ -294,5 +306,130 @@ func TestVerifIPFIXJobs(t *testing.T) {
 		}()
 		atomic.StoreInt64(&vBusy, -1)
 		enc.Encode(jr)
+	}
+}
+
+// ---------------------------------------------------------------------------------------
+// Variant jobs (C09): the driver assembles, for one well-formed message given set by set,
+// every insertion of each given undecodable set at every set boundary and every truncation
+// of the message, decodes each from the same history, and reports compact observations
+// (status, number of records, one digest per record).  Judging them is the harness's job.
+
+type vVarJob struct {
+	ID       int     `json:"id"`
+	Exp      []int   `json:"exp"`
+	Hist     [][]int `json:"hist"`    // earlier datagrams of the same exporter
+	Hdr      []int   `json:"hdr"`     // message header (length field is patched)
+	Sets     [][]int `json:"sets"`    // the sets of the message
+	Inserts  [][]int `json:"inserts"` // undecodable sets to insert
+	Truncate bool    `json:"truncate"`
+}
+
+type vObs struct {
+	St    string   `json:"st"`
+	N     int      `json:"n"`
+	RD    []string `json:"rd"`
+	Panic string   `json:"panic,omitempty"`
+}
+
+type vVarRes struct {
+	ID    int      `json:"id"`
+	Full  vObs     `json:"full"`
+	Ins   [][]vObs `json:"ins"`   // [position][insert]
+	Trunc []vObs   `json:"trunc"` // [offset 0..len]
+}
+
+func vDigest(rec []vField) string {
+	b, _ := json.Marshal(rec)
+	var h uint64 = 14695981039346656037
+	for _, c := range b {
+		h ^= uint64(c)
+		h *= 1099511628211
+	}
+	return strconv.FormatUint(h, 36)
+}
+
+func vObserve(exp []int, hist [][]int, buf []int) vObs {
+	cache := GetCache("")
+	for _, h := range hist {
+		vRunMsg(cache, vMsg{exp, h}, false, false)
+	}
+	r := vRunMsg(cache, vMsg{exp, buf}, false, false)
+	o := vObs{St: r.St, N: len(r.Recs), RD: []string{}, Panic: r.Panic}
+	for _, rec := range r.Recs {
+		o.RD = append(o.RD, vDigest(rec))
+	}
+	return o
+}
+
+func vAssemble(hdr []int, sets [][]int) []int {
+	out := append([]int{}, hdr...)
+	for _, s := range sets {
+		out = append(out, s...)
+	}
+	if len(out) >= 4 && out[0] == 0 && out[1] == 10 { // IPFIX: total length
+		out[2], out[3] = (len(out)>>8)&255, len(out)&255
+	}
+	return out
+}
+
+func TestVerifIPFIXVariants(t *testing.T) {
+	in, out := os.Getenv("VERIF_JOBS"), os.Getenv("VERIF_OUT")
+	if in == "" {
+		t.Skip("driver: VERIF_JOBS not set")
+	}
+	if dir := os.Getenv("VERIF_ELEMENTS_DIR"); dir != "" {
+		if err := LoadExtElements(dir); err != nil {
+			t.Fatalf("LoadExtElements: %v", err)
+		}
+	}
+	skip, _ := strconv.Atoi(os.Getenv("VERIF_SKIP"))
+	fi, err := os.Open(in)
+	if err != nil {
+		t.Fatal(err)
+	}
+	defer fi.Close()
+	fo, err := os.OpenFile(out, os.O_CREATE|os.O_WRONLY|os.O_APPEND, 0644)
+	if err != nil {
+		t.Fatal(err)
+	}
+	defer fo.Close()
+	w := bufio.NewWriterSize(fo, 1<<16)
+	defer w.Flush()
+	atomic.StoreInt64(&vBusy, -1)
+	go vWatchdog(w, 1024, 10*time.Second)
+	sc := bufio.NewScanner(fi)
+	sc.Buffer(make([]byte, 1<<20), 1<<28)
+	enc := json.NewEncoder(w)
+	n := 0
+	for sc.Scan() {
+		n++
+		if n <= skip {
+			continue
+		}
+		var job vVarJob
+		if err := json.Unmarshal(sc.Bytes(), &job); err != nil {
+			t.Fatal(err)
+		}
+		w.Flush()
+		atomic.StoreInt64(&vBusy, int64(job.ID))
+		res := vVarRes{ID: job.ID, Ins: [][]vObs{}, Trunc: []vObs{}}
+		full := vAssemble(job.Hdr, job.Sets)
+		res.Full = vObserve(job.Exp, job.Hist, full)
+		for pos := 0; pos <= len(job.Sets); pos++ {
+			row := []vObs{}
+			for _, u := range job.Inserts {
+				sets := append(append(append([][]int{}, job.Sets[:pos]...), u), job.Sets[pos:]...)
+				row = append(row, vObserve(job.Exp, job.Hist, vAssemble(job.Hdr, sets)))
+			}
+			res.Ins = append(res.Ins, row)
+		}
+		if job.Truncate {
+			for k := 0; k <= len(full); k++ {
+				res.Trunc = append(res.Trunc, vObserve(job.Exp, job.Hist, full[:k]))
+			}
+		}
+		atomic.StoreInt64(&vBusy, -1)
+		enc.Encode(res)
 	}
 }
